@@ -116,7 +116,7 @@ type offerOpt struct {
 	mutate      func(b *types.Block, bs *consensus.V1BlockSupplement)
 	tsOverride  *time.Time
 	onApply     func(ns consensus.State) // called with the state an accepted block leads to
-	rowVerdict  bool // leave an accepted block to the row's own expect() (a recorded finding is identified by its row)
+	rowVerdict  bool                     // leave an accepted block to the row's own expect() (a recorded finding is identified by its row)
 }
 
 // offer seals the transactions into a block on the scratch tip (correct
